@@ -206,6 +206,10 @@ def run(P: Program, R: Report, tier: str) -> None:
     from .c05 import id_truthiness
 
     id_truthiness(P, R, "R14.7", modules=("import_export",))
+    # the importer half of the round trip: ids read back from a file are not tested by truthiness either (node id 0)
+    from .c12 import source_id_truthiness
+
+    source_id_truthiness(P, R, "R14.7")
     # ---- R14.8 the 'missing' mask of a loaded property survives the renaming step
     missing_mask_passthrough(P, R, "R14.8")
 
